@@ -132,6 +132,8 @@ class Ctx:
         self.seed = seed
         self.t0 = time.time()
         self.jobs = collections.OrderedDict()
+        self._chains = {}
+        self.deep_budget = float(os.environ.get("VERIF_DEEP_BUDGET", "1500"))   # s of wall time during which deep queries are started
         self.records = []       # query records (evidence)
         self.bench_records = {}
         self.violations = []    # confirmed, not known
@@ -250,6 +252,10 @@ class Ctx:
                             pending[f2] = ("query", bn, q2)
                     else:
                         self._after_query(bn, q, res)
+                        nxt = self._next_deep(bn, q, res[0])
+                        if nxt is not None:
+                            f2 = ex.submit(_solve, nxt["text"], nxt["clauses"], nxt["negs"], nxt["timeout"], nxt.get("tactic"))
+                            pending[f2] = ("query", bn, nxt)
 
     def _cross_check_queries(self, bn, qs):
         """thorough tier: the cheapest-looking violation query of each bench (shallow frames) is re-decided by the second
@@ -305,10 +311,18 @@ class Ctx:
                     lo = hi + 1
             else:
                 ranges = [(lo, min(K, lo + chunk - 1), True) for lo in range(0, K + 1, chunk)]
+            chain = []
             for lo, hi, required in ranges:
-                qs.append(dict(kind="violation", name=bad, lo=lo, hi=hi, text=text, required=required,
-                               clauses=[["V!%s!%d" % (bad, t) for t in range(lo, hi + 1)]], negs=[],
-                               timeout=job["timeout"] if required else job.get("deep_timeout", job["timeout"])))
+                q = dict(kind="violation", name=bad, lo=lo, hi=hi, text=text, required=required,
+                         clauses=[["V!%s!%d" % (bad, t) for t in range(lo, hi + 1)]], negs=[],
+                         timeout=job["timeout"] if required else job.get("deep_timeout", job["timeout"]))
+                if self.tier == "thorough" and not required:
+                    chain.append(q)     # deep frames: one query after the other, stopping at the first timeout (see _next_deep)
+                else:
+                    qs.append(q)
+            if chain:
+                self._chains[(bn, bad)] = chain[1:]
+                qs.append(chain[0])
         for cov in res["covers"]:
             qs.append(dict(kind="cover", name=cov, lo=0, hi=K, text=text,
                            clauses=[["COV!%s!%d" % (cov, t) for t in range(0, K + 1)]], negs=[],
@@ -326,6 +340,21 @@ class Ctx:
         for x in xs:
             self._xq[(bn, x["name"], x["lo"], x["hi"])] = None
         return qs + xs
+
+    def _next_deep(self, bn, q, result):
+        """thorough tier: deep frames of one monitor are explored in order; the chain stops at the first query that is not unsat or
+        when the wall budget for starting deep queries is used up; what is left is recorded as not discharged (stated bound)"""
+        rest = self._chains.get((bn, q["name"]))
+        if not rest or q.get("required", True) or q["kind"] != "violation":
+            return None
+        if result == "unsat" and time.time() - self.t0 < self.deep_budget:
+            nxt = rest.pop(0)
+            self.obligations += 1
+            return nxt
+        for r in rest:
+            self.bench_records[bn].setdefault("undischarged_deep_frames", []).append([r["name"], r["lo"], r["hi"]])
+        self._chains[(bn, q["name"])] = []
+        return None
 
     def _after_query(self, bn, q, res):
         result, secs, model, reason = res
